@@ -31,6 +31,7 @@ type ruleCase struct {
 	Kind     spec.T
 	Card     spec.Card
 	Number64 bool // int64_encoding=NUMBER
+	BytesEnc int32 // bytes_encoding (0 = none)
 	Rules    *validate.FieldRules
 	Probes   []ruleProbe
 	Format   string // expected published format for well-known string rules
@@ -607,6 +608,29 @@ func ruleCatalogue() []ruleCase {
 		Probes: []ruleProbe{scalarProbe("true", protoreflect.ValueOfBool(true))}})
 	out = append(out, ruleCase{ID: "rules/required/optional-string/true-values", Kind: spec.String, Card: spec.Optional, Rules: reqOnly(), Required: true, OneWay: true,
 		Probes: []ruleProbe{scalarProbe("empty-but-set", protoreflect.ValueOfString("")), scalarProbe("one-char", protoreflect.ValueOfString("a"))}})
+	// bytes length rules count BYTES; the JSON form is text in one of five encodings whose length is another
+	// number (one-way: a value the rules accept must validate)
+	for _, be := range []struct {
+		label string
+		enc   int32
+	}{{"default", 0}, {"base64", 1}, {"base64_raw", 2}, {"base64url", 3}, {"base64url_raw", 4}, {"hex", 5}} {
+		bp := func(n int) ruleProbe {
+			return scalarProbe(fmt.Sprintf("n%d", n), protoreflect.ValueOfBytes([]byte(strings.Repeat("\xfb\xef\xbe\x01", n/4+1)[:n])))
+		}
+		br := func(r *validate.BytesRules) *validate.FieldRules {
+			return &validate.FieldRules{Type: &validate.FieldRules_Bytes{Bytes: r}}
+		}
+		for _, n := range []uint64{16, 20, 3, 1} {
+			out = append(out, ruleCase{ID: fmt.Sprintf("rules/bytes-len/%s/n=%d", be.label, n), Kind: spec.Bytes, BytesEnc: be.enc, OneWay: true, Rules: br(&validate.BytesRules{Len: proto.Uint64(n)}),
+				Probes: []ruleProbe{bp(int(n)), bp(int(n) - 1), bp(int(n) + 1)}})
+		}
+		out = append(out, ruleCase{ID: fmt.Sprintf("rules/bytes-max_len/%s/n=32", be.label), Kind: spec.Bytes, BytesEnc: be.enc, OneWay: true, Rules: br(&validate.BytesRules{MaxLen: proto.Uint64(32)}),
+			Probes: []ruleProbe{bp(1), bp(30), bp(31), bp(32), bp(33)}})
+		out = append(out, ruleCase{ID: fmt.Sprintf("rules/bytes-min_len/%s/n=5", be.label), Kind: spec.Bytes, BytesEnc: be.enc, OneWay: true, Rules: br(&validate.BytesRules{MinLen: proto.Uint64(5)}),
+			Probes: []ruleProbe{bp(4), bp(5), bp(6), bp(64)}})
+		out = append(out, ruleCase{ID: fmt.Sprintf("rules/bytes-min+max_len/%s/n=20..32", be.label), Kind: spec.Bytes, BytesEnc: be.enc, OneWay: true, Rules: br(&validate.BytesRules{MinLen: proto.Uint64(20), MaxLen: proto.Uint64(32)}),
+			Probes: []ruleProbe{bp(19), bp(20), bp(22), bp(31), bp(32), bp(33)}})
+	}
 	// ---- the ignore option ----
 	// IGNORE_IF_ZERO_VALUE on a field without presence exempts only the zero value: every other value
 	// is judged by the same rules, and `required` stays in force. IGNORE_ALWAYS switches the rules and
@@ -692,6 +716,9 @@ func buildRuleUnitX(pkg, goName, svc string, cat []ruleCase, perRPC bool) *ruleU
 		fld.Ann.Rules = rc.Rules
 		if rc.Number64 {
 			fld.Ann.Int64Enc = 2
+		}
+		if rc.BytesEnc != 0 {
+			fld.Ann.BytesEnc = rc.BytesEnc
 		}
 		mn := fmt.Sprintf("R%03d", i)
 		f.Messages = append(f.Messages, &spec.Message{Name: mn, Fields: []*spec.Field{fld, spec.F("other", 2, spec.String)}})
